@@ -96,6 +96,14 @@ def mk_stride(up, r, ws, pw, rev, tokens=None):
                          spec=lambda: L.DownScoreboard(r, nb, pw, rev, lane_of=stride_lane(ws, r))))
 
 
+def gb_tokens(i):
+    """Quick-tier sink words for the wider gearboxes: all-zero, all-one, and two mixed patterns (keeps the number
+    of distinct shift-register contents small); flags are ignored by the element, one letter carries them set."""
+    full = (1 << i) - 1
+    vals = sorted({0, full, 0b0110 & full, 0b1010 & full, 1})
+    return [(d, 0, 0) for d in vals] + [(full, 1, 1)]
+
+
 def mk_gearbox(i, o, msb, tokens=None):
     m = stream.Gearbox(i, o, msb_first=msb)
     return RG(StreamInst("Gearbox(%d,%d,%s)" % (i, o, "msb" if msb else "lsb"), m,
@@ -177,7 +185,8 @@ def jobs(tier):
         A(lambda rev=rev: mk_down(2, 1, rev, raw=False))
         A(lambda rev=rev: mk_pack(2, 1, 1, rev))
         A(lambda rev=rev: mk_unpack(2, 1, 1, rev))
-        A(lambda rev=rev: mk_stride(True, 2, [1, 1], 1, rev))
+        A(lambda rev=rev: mk_stride(True, 2, [1, 1], 1, rev, tokens=None if not (quick and rev) else
+                            [(d, f, l) for d in range(8) for (f, l) in ((0, 0), (1, 1))] + [(5, 1, 0), (2, 0, 1)]))
         A(lambda rev=rev: mk_stride(False, 2, [1, 1], 1, rev))
     A(lambda: StreamInst("Converter(1->1)", stream.Converter(1, 1), "wire", capacity=0))
     if not quick:
@@ -191,7 +200,8 @@ def jobs(tier):
             for msb in (True, False):
                 if quick and msb != ((i + o) % 2 == 0) and L.io_lcm(i, o) > 6:
                     continue      # quick: both bit orders only for the small registers
-                A(lambda i=i, o=o, msb=msb: mk_gearbox(i, o, msb), max_states=6000 if quick else 400000)
+                A(lambda i=i, o=o, msb=msb: mk_gearbox(i, o, msb, tokens=gb_tokens(i) if quick and i >= 3 else None),
+                  max_states=5000 if quick else 400000)
 
     # ---- routing
     for n in (1, 2, 3):
@@ -234,7 +244,8 @@ def jobs(tier):
     B(lambda: mk_stride(True, 8, [4, 4], 2, True))
     B(lambda: mk_stride(False, 4, [8, 3, 5], 6, True))
     B(lambda: mk_stride(False, 2, [16, 16], 0, False))
-    for (i, o, msb) in ((10, 8, True), (8, 10, False), (66, 64, True), (20, 32, True), (7, 9, False)) + \
+    for (i, o, msb) in ((10, 8, True), (8, 10, False), (66, 64, True), (20, 32, True), (7, 9, False),
+                        (8, 16, True), (4, 16, False)) + \
             (() if quick else ((10, 8, False), (8, 10, True), (64, 66, False), (32, 20, False), (9, 7, True))):
         B(lambda i=i, o=o, msb=msb: mk_gearbox(i, o, msb))
     B(lambda: L.MuxInst("Multiplexer(3)/8b", stream.Multiplexer(L8, 3), 3))
@@ -257,7 +268,31 @@ def correspond(ctx):
 
 
 def search(ctx, disagreements, proof_info):
-    return generic_search(ctx, disagreements, getattr(ctx, "jobs", None) or jobs(ctx.tier), FMT)
+    """Failing-input search.  Short first: the breadth-first (hence minimal-length) disagreement traces of mode A
+    are replayed and extended on the real code with the property oracle armed; a trace on which an oracle already
+    fired during co-simulation is delta-debugged before it is reported."""
+    from explore import search_failing_input, shrink
+    all_jobs = getattr(ctx, "jobs", None) or jobs(ctx.tier)
+    import time
+    deadline = time.time() + (45 if ctx.tier == "quick" else 300)
+    by_job = {}
+    for d in disagreements:
+        if d.job is not None and not d.kind.startswith("monitor:") and all_jobs[d.job].mode == "A":
+            by_job.setdefault(d.job, []).append(d.trace)
+    for j, seeds in list(by_job.items())[:4]:
+        inst = all_jobs[j].make()
+        r = search_failing_input(inst, ctx.rng, seeds, ext_len=12, tries=150, deadline=deadline)
+        if r:
+            return {"instance": inst.name, "trace": [list(l) for l in r[0]], "monitor": r[1], "letter_format": FMT}
+    for d in disagreements:
+        if d.kind.startswith("monitor:") and d.job is not None:
+            inst = all_jobs[d.job].make()
+            tr = shrink(inst, [tuple(l) for l in d.trace])
+            r = replay_with_monitor(inst, tr)
+            if r:
+                return {"instance": inst.name, "trace": [list(l) for l in tr[:r[0] + 1]], "monitor": r[1],
+                        "letter_format": FMT}
+    return generic_search(ctx, disagreements, all_jobs, FMT)
 
 
 # ---------------------------------------------------------------------------------------------------------
